@@ -279,10 +279,10 @@ def instances(tier, seed):
     out = []
     for n, k in ([(2, 3), (3, 2)] if q else [(2, 3), (3, 3), (4, 2)]):
         out.append(Instance("resolve[n=%d,isoform_choices=%d]" % (n, k), h_resolve(n, k), F, "%d alignments per read" % n,
-                            weight=10 ** n, budget_s=1200 if q else 5400))
+                            weight=10 ** n, budget_s=1200 if q else 2400))
     for n, k in ([(2, 3), (3, 2)] if q else [(2, 3), (3, 3), (4, 2)]):
         out.append(Instance("order[n=%d,isoform_choices=%d]" % (n, k), h_order(n, k), F, "%d alignments, all %d! orders" % (n, n),
-                            weight=20 ** n, budget_s=1200 if q else 5400))
+                            weight=20 ** n, budget_s=1200 if q else 2400))
     for n in ((1, 2) if q else (1, 2, 3)):
         out.append(Instance("loader[n=%d]" % n, h_loader(n), ["src.dataset_processor:ReadAssignmentLoader.get_next"],
                             "%d saved alignments of one read, arbitrary verdict list" % n, weight=5 ** n))
